@@ -20,8 +20,19 @@ Definition out_eqb (a b : out Z) : bool :=
   | _, _ => false
   end.
 
-(* initial settings, observed log, observed (run() invocations, thread exited, blocked in join) *)
-Definition case := (Z * list (label Z * out Z) * (nat * bool * bool))%type.
+(* initial settings, observed log (result None = not observable from outside: the outcome of the join
+   inside release_rpc_object is swallowed), observed (run() invocations, thread exited, blocked in join) *)
+Definition case := (Z * list (label Z * option (out Z)) * (nat * bool * bool))%type.
+
+Definition obs_eqb (m : out Z) (o : option (out Z)) : bool :=
+  match o with None => true | Some x => out_eqb m x end.
+
+Fixpoint outs_match (ms : list (out Z)) (os : list (option (out Z))) : bool :=
+  match ms, os with
+  | [], [] => true
+  | m :: ms', o :: os' => obs_eqb m o && outs_match ms' os'
+  | _, _ => false
+  end.
 
 (* run as far as the model accepts: (number of accepted labels, results, state reached) *)
 Fixpoint run_upto (s : st Z) (ls : list (label Z)) : nat * list (out Z) * st Z :=
@@ -44,7 +55,7 @@ Definition check_case (c : case) : bool :=
   let '(v0, tr, (rc, dn, blocked)) := c in
   match exec (init v0) (map fst tr) with
   | Some (s, tr') =>
-      list_eqb out_eqb (map snd tr') (map snd tr) &&
+      outs_match (map snd tr') (map snd tr) &&
       Nat.eqb (run_count s) rc && Bool.eqb (thread_done s) dn &&
       (if blocked then match step s (Ext Join) with None => true | Some _ => false end else true)
   | None => false
